@@ -450,7 +450,7 @@ def run_chunk(spec):
             bisim_case(res, dict(spec, only_engine=only.get("engine")), only["idx"])
         return res.to_json()
     base = spec["chunk"] * 100000
-    wd = Watchdog(res, 120.0)
+    wd = Watchdog(res, 400.0)
     for j in range(spec["n"]):
         wd.arm("idx=%d" % (base + j))
         bisim_case(res, spec, base + j)
